@@ -255,35 +255,101 @@ class IntEncodingError(Exception):
     pass
 
 
-def bv_to_int(conds):
-    """Integer encoding of an unsigned bit-vector query that keeps the mod-2^k semantics: every
-    bit-vector term becomes a mathematical integer in [0, 2^k) (variables with range constraints,
-    `+`/`-`/`*` followed by mod 2^k, division / remainder / shifts by constants as div / mod).
-    Multiplication, division and remainder by constants are linear, so queries that stall a
-    bit-blaster are decided by arithmetic. Signed operators and symbolic * symbolic are rejected
+class IntEnc:
+    """Integer encoding of bit-vector terms that keeps the mod-2^k semantics: every bit-vector
+    term becomes a mathematical integer in [0, 2^k) (variables with range constraints, `+ - *const`
+    followed by mod 2^k, division / remainder / shifts by constants as div / mod, signed operators
+    through the two's-complement value). Multiplication, division and remainder by constants are
+    linear, so queries that stall a bit-blaster are decided by arithmetic. Symbolic * symbolic,
+    division by a non-constant and bitwise operators other than masks are rejected
     (IntEncodingError), never approximated."""
-    memo, ranges = {}, []
-    I = z3.IntVal
 
-    def tr(t):
-        tid = t.get_id()
-        if tid in memo:
-            return memo[tid][1]
+    def __init__(self):
+        self.memo = {}
+        self.ranges = []
+        self.vars = {}
+
+    @staticmethod
+    def signed_of(u, n):
+        return z3.If(u >= z3.IntVal(1 << (n - 1)), u - z3.IntVal(1 << n), u)
+
+    def signed(self, t):
+        """two's-complement value of a bit-vector term. Signed operators are translated directly on
+        signed values (a `mod` appears only where the machine operation can really wrap), which keeps
+        queries over i128 arithmetic linear and small; anything else goes through the unsigned value."""
+        key = ("s", t.get_id())
+        if key in self.memo:
+            return self.memo[key][1]
+        I = z3.IntVal
+        n = t.size()
+        M, H = I(1 << n), I(1 << (n - 1))
+        wrap = lambda v, bits=n: ((v + I(1 << (bits - 1))) % I(1 << bits)) - I(1 << (bits - 1))
         k = t.decl().kind() if z3.is_app(t) else None
         ch = t.children()
+        out = None
+        if z3.is_bv_value(t):
+            v = t.as_long()
+            out = I(v - (1 << n) if v >= (1 << (n - 1)) else v)
+        elif z3.is_const(t) and k == z3.Z3_OP_UNINTERPRETED:
+            u = self.tr(t)
+            out = z3.Int("sint!" + str(t))
+            self.ranges.append(z3.And(out >= -H, out < H, u == z3.If(out < 0, out + M, out)))
+        elif k == z3.Z3_OP_ITE:
+            out = z3.If(self.tr(ch[0]), self.signed(ch[1]), self.signed(ch[2]))
+        elif k in (z3.Z3_OP_BSDIV, z3.Z3_OP_BSDIV_I, z3.Z3_OP_BSREM, z3.Z3_OP_BSREM_I) and z3.is_bv_value(ch[1]) \
+                and 0 < ch[1].as_long() < (1 << (n - 1)):
+            c = I(ch[1].as_long())
+            sa = self.signed(ch[0])
+            q = z3.If(sa >= 0, sa / c, -((-sa) / c))          # truncation toward zero; no overflow for c > 0
+            out = q if k in (z3.Z3_OP_BSDIV, z3.Z3_OP_BSDIV_I) else sa - c * q
+        elif k == z3.Z3_OP_BNEG:
+            sa = self.signed(ch[0])
+            out = z3.If(sa == -H, -H, -sa)
+        elif k == z3.Z3_OP_BADD:
+            out = wrap(z3.Sum([self.signed(c) for c in ch]))
+        elif k == z3.Z3_OP_BSUB:
+            out = wrap(self.signed(ch[0]) - self.signed(ch[1]))
+        elif k == z3.Z3_OP_SIGN_EXT:
+            out = self.signed(ch[0])
+        elif k == z3.Z3_OP_ZERO_EXT and t.params()[0] > 0:
+            out = self.tr(ch[0])
+        elif k == z3.Z3_OP_EXTRACT and t.params()[1] == 0:
+            out = wrap(self.signed(ch[0]), n)
+        else:
+            out = self.signed_of(self.tr(t), n)
+        self.memo[key] = (t, out)
+        return out
+
+    def tr(self, t):
+        tid = t.get_id()
+        if tid in self.memo:
+            return self.memo[tid][1]
+        I = z3.IntVal
+        k = t.decl().kind() if z3.is_app(t) else None
+        ch = t.children()
+        tr = self.tr
         out = None
         if z3.is_bv(t):
             n = t.size()
             M = I(1 << n)
+
+            def sconst(c):
+                v = c.as_long()
+                return v - (1 << n) if v >= (1 << (n - 1)) else v
             if z3.is_bv_value(t):
                 out = I(t.as_long())
             elif z3.is_const(t) and k == z3.Z3_OP_UNINTERPRETED:
                 out = z3.Int("int!" + str(t))
-                ranges.append(z3.And(out >= 0, out < M))
+                self.vars[str(t)] = (out, n)
+                self.ranges.append(z3.And(out >= 0, out < M))
             elif k == z3.Z3_OP_BADD:
                 out = z3.Sum([tr(c) for c in ch]) % M
             elif k == z3.Z3_OP_BSUB:
                 out = (tr(ch[0]) - tr(ch[1])) % M
+            elif k == z3.Z3_OP_BNEG:
+                out = (-tr(ch[0])) % M
+            elif k == z3.Z3_OP_BNOT:
+                out = M - 1 - tr(ch[0])
             elif k == z3.Z3_OP_BMUL:
                 consts = [c for c in ch if z3.is_bv_value(c)]
                 others = [c for c in ch if not z3.is_bv_value(c)]
@@ -298,8 +364,21 @@ def bv_to_int(conds):
                     raise IntEncodingError("division by a non-constant")
                 c = I(ch[1].as_long())
                 out = tr(ch[0]) / c if k in (z3.Z3_OP_BUDIV, z3.Z3_OP_BUDIV_I) else tr(ch[0]) % c
+            elif k in (z3.Z3_OP_BSDIV, z3.Z3_OP_BSDIV_I, z3.Z3_OP_BSREM, z3.Z3_OP_BSREM_I):
+                if not z3.is_bv_value(ch[1]) or ch[1].as_long() == 0:
+                    raise IntEncodingError("division by a non-constant")
+                c = sconst(ch[1])
+                if c > 0:
+                    out = self.signed(t) % M
+                else:
+                    sa = self.signed(ch[0])
+                    ac = I(abs(c))
+                    q = -z3.If(sa >= 0, sa / ac, -((-sa) / ac))
+                    out = (q % M) if k in (z3.Z3_OP_BSDIV, z3.Z3_OP_BSDIV_I) else ((sa - I(c) * q) % M)
             elif k == z3.Z3_OP_ZERO_EXT:
                 out = tr(ch[0])
+            elif k == z3.Z3_OP_SIGN_EXT:
+                out = self.signed(ch[0]) % M
             elif k == z3.Z3_OP_CONCAT:
                 acc = I(0)
                 for c in ch:
@@ -314,6 +393,12 @@ def bv_to_int(conds):
                 out = (tr(ch[0]) * I(1 << min(ch[1].as_long(), n))) % M
             elif k == z3.Z3_OP_BLSHR and z3.is_bv_value(ch[1]):
                 out = tr(ch[0]) / I(1 << min(ch[1].as_long(), n))
+            elif k == z3.Z3_OP_BASHR and z3.is_bv_value(ch[1]):
+                out = (self.signed(ch[0]) / I(1 << min(ch[1].as_long(), n))) % M
+            elif k == z3.Z3_OP_BAND and len(ch) == 2 and any(z3.is_bv_value(c) and (c.as_long() & (c.as_long() + 1)) == 0 for c in ch):
+                mask = [c for c in ch if z3.is_bv_value(c) and (c.as_long() & (c.as_long() + 1)) == 0][0]
+                other = ch[1] if mask is ch[0] else ch[0]
+                out = tr(other) % I(mask.as_long() + 1)
             else:
                 raise IntEncodingError(f"bit-vector operator {t.decl().name()}")
         elif z3.is_bool(t):
@@ -331,15 +416,21 @@ def bv_to_int(conds):
             elif k in (z3.Z3_OP_ULT, z3.Z3_OP_ULEQ, z3.Z3_OP_UGT, z3.Z3_OP_UGEQ):
                 a, b = tr(ch[0]), tr(ch[1])
                 out = {z3.Z3_OP_ULT: a < b, z3.Z3_OP_ULEQ: a <= b, z3.Z3_OP_UGT: a > b, z3.Z3_OP_UGEQ: a >= b}[k]
+            elif k in (z3.Z3_OP_SLT, z3.Z3_OP_SLEQ, z3.Z3_OP_SGT, z3.Z3_OP_SGEQ):
+                a, b = self.signed(ch[0]), self.signed(ch[1])
+                out = {z3.Z3_OP_SLT: a < b, z3.Z3_OP_SLEQ: a <= b, z3.Z3_OP_SGT: a > b, z3.Z3_OP_SGEQ: a >= b}[k]
             else:
                 raise IntEncodingError(f"boolean operator {t.decl().name()}")
         else:
             raise IntEncodingError(f"sort {t.sort()}")
-        memo[tid] = (t, out)      # keeps t alive: ids of freed terms are reused
+        self.memo[tid] = (t, out)      # keeps t alive: ids of freed terms are reused
         return out
 
-    out = [tr(z3.simplify(c)) for c in conds]
-    return out + ranges
+
+def bv_to_int(conds):
+    enc = IntEnc()
+    out = [enc.tr(z3.simplify(c)) for c in conds]
+    return out + enc.ranges
 
 
 def int_check(q, *conds, timeout_ms=120000):
